@@ -63,6 +63,8 @@ class State:
         self.step_base = z3.IntVal(0)
         self.step_snap = None
         self.step_no = 0
+        self.step_time = None     # ghost: virtual time at which the current step of an async generator began
+        self.tick_time = None     # ghost: virtual time of the previous `yield` of an async generator (entry time before the first)
         self.clock = z3.IntVal(0)   # allocation clock (birth stamp of the youngest object created by me)
         self.epoch_bound = z3.IntVal(0)   # everything stored in the initial arrays of this epoch was born <= this
 
@@ -95,6 +97,8 @@ class State:
         s.step_base = self.step_base
         s.step_snap = self.step_snap
         s.step_no = self.step_no
+        s.tick_time = self.tick_time
+        s.step_time = self.step_time
         s.epoch_bound = self.epoch_bound
         return s
 
